@@ -269,9 +269,17 @@ package cisco
 // reference (and possibly renamed to the name Netspoc uses) must not be merged
 // a second time - whether or not the second reference has a Netspoc
 // counterpart; it is rejected with "Must reference ... only once in raw".
+//vc:ghost var simpleObjFound []*cmd
 //vc:func mergeRefs
 //vc:  nullable a
 //vc:  invariant[C18] 1 "for i, bName := range b.ref" true
+// a reference to a simple object (pool, transform-set, ipsec proposal) is bound
+// to the object findSimpleObject found - one that is equal in all its lines -
+// or to the referenced object itself, which is then added; an object that only
+// has the same name is a name clash, not a match
+//vc:  assign after "findSimpleObject(bl, ab.a)" simpleObjFound = callresult
+//vc:  assert[C18] at "a.ref[i] = objName" @boundToEqualObjectOrItself al == simpleObjFound || al == bl
+//vc:  assert[C18] at "b.ref[i] = objName" @boundToEqualObjectOrItself al == simpleObjFound || al == bl
 //vc:  assert[C18] at "isReferenced[refCmd] = true"#2 @rawObjectMergedOnce ab.b.isRaw ==> !((refCmd in isReferenced) && isReferenced[refCmd])
 
 // the same for the tables of mergeCmds (commands of one name) and
